@@ -52,6 +52,24 @@ func verifC14InstNum(id cloud.InstanceID) int {
 	return n
 }
 
+// ---- fake cloud instance set for getInstancesAndSync
+
+type verifC14RateLimit struct{ until time.Time }
+
+func (e verifC14RateLimit) Error() string            { return "rate limited" }
+func (e verifC14RateLimit) EarliestRetry() time.Time { return e.until }
+
+type verifC14IS struct {
+	insts []cloud.Instance
+	err   error
+}
+
+func (is *verifC14IS) Create(arvados.InstanceType, cloud.ImageID, cloud.InstanceTags, cloud.InitCommand, ssh.PublicKey) (cloud.Instance, error) {
+	return nil, errors.New("not implemented")
+}
+func (is *verifC14IS) Instances(cloud.InstanceTags) ([]cloud.Instance, error) { return is.insts, is.err }
+func (is *verifC14IS) Stop()                                                  {}
+
 // ---- gate-controlled executor
 
 type verifC14Resp struct {
@@ -126,6 +144,7 @@ type verifC14Probe struct {
 
 type verifC14Driver struct {
 	wp        *Pool
+	is        *verifC14IS
 	arrivals  chan *verifC14Call
 	stash     []*verifC14Call
 	pend      []*verifC14Pend
@@ -184,6 +203,7 @@ func verifC14NewDriver() *verifC14Driver {
 		timeoutShutdown:  100 * time.Hour,
 		timeoutTERM:      100 * time.Hour,
 		timeoutSignal:    50 * time.Millisecond,
+		timeoutStaleRunLock: 100 * time.Hour,
 		runnerCmdDefault: "crunch-run",
 		runnerCmd:        "crunch-run",
 		runnerData:       []byte{},
@@ -203,6 +223,8 @@ func verifC14NewDriver() *verifC14Driver {
 		return &verifC14Exec{wid: verifC14InstNum(inst.ID()), arrivals: d.arrivals}
 	}
 	wp.registerMetrics(prometheus.NewRegistry())
+	d.is = &verifC14IS{}
+	wp.instanceSet = &throttledInstanceSet{InstanceSet: d.is}
 	d.wp = wp
 	return d
 }
@@ -496,9 +518,17 @@ func (d *verifC14Driver) op(op string) error {
 		if op != "tt" {
 			return errors.New("bad op")
 		}
-	case "sy":
-		if len(a) != 2 {
+	case "sy", "gs":
+		if len(a) != 2+map[string]int{"sy": 0, "gs": 1}[kind] {
 			return errors.New("bad op")
+		}
+		mode := "k"
+		if kind == "gs" {
+			mode = a[0]
+			a = a[1:]
+			if mode != "k" && mode != "e" && mode != "r" {
+				return errors.New("bad op")
+			}
 		}
 		retry, e1 := verifC14Bool(a[0])
 		if e1 != nil {
@@ -541,13 +571,48 @@ func (d *verifC14Driver) op(op string) error {
 		for _, s := range secrets {
 			wp.creating[s] = createCall{time: time.Now(), instanceType: verifC14Type(1)}
 		}
+		before := map[cloud.InstanceID]bool{}
+		for id := range wp.workers {
+			before[id] = true
+		}
 		wp.mtx.Unlock()
-		wp.sync(d.threshold, insts)
+		if kind == "sy" {
+			wp.sync(d.threshold, insts)
+		} else {
+			// the real getInstancesAndSync with a cloud that answers the list, fails, or rate-limits
+			switch mode {
+			case "k":
+				d.is.insts, d.is.err = insts, nil
+			case "e":
+				d.is.insts, d.is.err = nil, errors.New("cloud API error")
+			case "r":
+				d.is.insts, d.is.err = nil, verifC14RateLimit{time.Now().Add(-time.Second)}
+			}
+			wp.getInstancesAndSync()
+		}
 		wp.mtx.Lock()
 		for _, s := range secrets {
 			delete(wp.creating, s)
 		}
+		var dropped []int
+		for id := range before {
+			if _, ok := wp.workers[id]; !ok {
+				dropped = append(dropped, verifC14InstNum(id))
+			}
+		}
 		wp.mtx.Unlock()
+		if kind == "gs" {
+			sort.Ints(dropped)
+			tok := "d-"
+			if len(dropped) > 0 {
+				var ds []string
+				for _, x := range dropped {
+					ds = append(ds, strconv.Itoa(x))
+				}
+				tok = "d" + strings.Join(ds, "/")
+			}
+			d.out = append(d.out, tok)
+		}
 	case "pb":
 		w, e1 := num(0)
 		if e1 != nil || len(a) != 2 {
@@ -613,8 +678,17 @@ func (d *verifC14Driver) op(op string) error {
 		p.phase, p.call = "list", c
 	case "pa":
 		w, e1 := num(0)
-		if e1 != nil || len(a) != 5 {
+		if e1 != nil || (len(a) != 5 && len(a) != 7) {
 			return errors.New("bad op")
+		}
+		pos, stale := 0, []int(nil)
+		if len(a) == 7 {
+			var e6, e7 error
+			pos, e6 = strconv.Atoi(a[5])
+			stale, e7 = verifC14Us(a[6])
+			if e6 != nil || e7 != nil {
+				return errors.New("bad op")
+			}
 		}
 		ok, e2 := verifC14Bool(a[1])
 		br, e3 := verifC14Bool(a[2])
@@ -631,12 +705,27 @@ func (d *verifC14Driver) op(op string) error {
 		if !ok {
 			p.call.resp <- verifC14Resp{err: errors.New("run probe failed")}
 		} else {
-			var sb strings.Builder
+			// lines of the answer; "broken" stands last (test.StubVM), first (the real crunch-run) or
+			// in the middle, as the case says
+			var lines []string
 			for _, u := range us {
-				sb.WriteString(verifC14UUID(u) + "\n")
+				lines = append(lines, verifC14UUID(u))
+			}
+			for _, u := range stale {
+				lines = append(lines, verifC14UUID(u)+" stale")
+			}
+			k := len(lines)
+			if pos == 1 {
+				k = 0
+			} else if pos == 2 {
+				k = len(lines) / 2
 			}
 			if br {
-				sb.WriteString("broken\n")
+				lines = append(lines[:k:k], append([]string{"broken"}, lines[k:]...)...)
+			}
+			var sb strings.Builder
+			for _, l := range lines {
+				sb.WriteString(l + "\n")
 			}
 			p.call.resp <- verifC14Resp{stdout: sb.String()}
 		}
